@@ -59,6 +59,11 @@ theorem rc_complete_of_dual (Pz : ConeProg K) (E : K → K → K → Prop)
     rw [hobj] at h
     unfold detPart at h
     linarith
+  · -- block (4) is empty: every random component of the rows is a row of the dual form
+    intro n hn j h1 h2
+    have hnr : R.nz ≤ Pz.coneDual.lp.nr := le_coneDual_nr Pz R.nz hnz hq
+    have : R.numRand Pz.coneDual = R.nz := by unfold numRand; exact Nat.min_eq_left hnr
+    omega
 
 /-- **Completeness of the robust counterpart for polyhedral (LP-class) supports**: if the support
 program has no cones, is non-empty, and the decisions `v` satisfy every uncertain row of the block
@@ -174,6 +179,147 @@ theorem rc_exact_lp (Pz : ConeProg K) (E : K → K → K → Prop) (hwf : Pz.WF)
     exact h
   · intro hsemi
     exact rc_complete_lp Pz E hwf hq hx hones R hnz hne x hsemi
+
+/-! #### Random variables declared after the set (`R.nz > Pz.lp.nc` allowed)
+
+The counterparts of `rc_complete_of_dual`, `rc_complete_lp`, `rc_exact_lp` without `hnz`, for the
+model with block (4) (`raffine[:, num_rand:] == 0`).  The semi-infinite row quantifies over every
+`ζ` whose first `Pz.lp.nc` components are a point of the support program; the later components
+are unrestricted. -/
+
+/-- **Completeness from dual attainment, late random variables allowed**: as `rc_complete_of_dual`,
+with the inner problem of row `n` posed for the rows truncated to the `min R.nz Pz.lp.nc` random
+components the support program knows, plus the requirement that the coefficients of the late
+components vanish at `v` (block (4)). -/
+theorem rc_complete_of_dual_late (Pz : ConeProg K) (E : K → K → K → Prop)
+    (hones : ∀ j, Pz.lp.c j = 1)
+    (R : RoRows K)
+    (hq : ∀ q ∈ Pz.qmat, ∀ j ∈ q, min R.nz Pz.lp.nc ≤ j)
+    (v : ℕ → K)
+    (h4 : ∀ n < R.m, ∀ j, Pz.lp.nc ≤ j → j < R.nz → R.coef n j v = 0)
+    (hdual : ∀ n < R.m, ∃ y,
+      (Pz.withCost ((R.trunc (min R.nz Pz.lp.nc)).rowCost n v)).coneDual.Feas E y ∧
+      R.detPart n v ≤ - (Pz.withCost ((R.trunc (min R.nz Pz.lp.nc)).rowCost n v)).coneDual.lp.obj y) :
+    ∃ v' : ℕ → K, (∀ d < R.nd, v' d = v d) ∧ (R.leToRc Pz.coneDual).prog.Feas E v' := by
+  choose! y hy using hdual
+  set R₀ := R.trunc (min R.nz Pz.lp.nc) with hR₀
+  have hnz₀ : R₀.nz ≤ Pz.lp.nc := Nat.min_le_right _ _
+  have hSle : Pz.coneDual.lp.nr ≤ Pz.lp.nc := coneDual_nr_le Pz
+  have hkS : min R.nz Pz.lp.nc ≤ Pz.coneDual.lp.nr :=
+    le_coneDual_nr Pz (min R.nz Pz.lp.nc) (Nat.min_le_right _ _) hq
+  have hnum : R₀.numRand Pz.coneDual = R.numRand Pz.coneDual := by
+    show min (min R.nz Pz.lp.nc) Pz.coneDual.lp.nr = min R.nz Pz.coneDual.lp.nr
+    omega
+  refine ⟨R.assemble Pz.coneDual v y, fun d hd => R.assemble_dec _ v y d hd, ?_⟩
+  apply leToRc_build R Pz.coneDual E (coneDual_qlt Pz) (coneDual_xlt Pz) (coneDual_xlen Pz) v y
+    (fun n => Pz.dualRhs (R₀.rowCost n v))
+  · intro n hn j hj
+    have h := R₀.dualRhs_rowCost Pz hones hnz₀ hq n v j hj
+    rw [hnum] at h
+    exact h
+  · intro n hn
+    have h := (hy n hn).1
+    rw [coneDual_withCost] at h
+    exact h
+  · intro n hn
+    have h := (hy n hn).2
+    have hobj : (Pz.withCost (R₀.rowCost n v)).coneDual.lp.obj (y n)
+        = ∑ i ∈ range Pz.coneDual.lp.nc, Pz.coneDual.lp.c i * y n i := by
+      rw [coneDual_withCost]; rfl
+    rw [hobj] at h
+    unfold detPart at h
+    linarith
+  · intro n hn j h1 h2
+    apply h4 n hn j _ h2
+    have : R.numRand Pz.coneDual = min R.nz Pz.coneDual.lp.nr := rfl
+    omega
+
+/-- **Completeness for polyhedral supports, late random variables allowed** (no `hnz`): if the
+decisions `v` satisfy every uncertain row at every realisation whose first `Pz.lp.nc` components
+are a point of the (non-empty) support and whose later components are arbitrary, then multiplier
+values exist that make the counterpart fragment — block (4) included — feasible. -/
+theorem rc_complete_late_lp (Pz : ConeProg K) (E : K → K → K → Prop) (hwf : Pz.WF)
+    (hq : Pz.qmat = []) (hx : Pz.xmat = [])
+    (hones : ∀ j, Pz.lp.c j = 1)
+    (R : RoRows K)
+    (hne : ∃ ζ, Pz.Feas E ζ)
+    (v : ℕ → K)
+    (hsemi : ∀ n < R.m, ∀ ζ₀, Pz.Feas E ζ₀ → ∀ ζ : ℕ → K, (∀ j < Pz.lp.nc, ζ j = ζ₀ j) →
+      R.eval n v ζ ≤ 0) :
+    ∃ v' : ℕ → K, (∀ d < R.nd, v' d = v d) ∧ (R.leToRc Pz.coneDual).prog.Feas E v' := by
+  obtain ⟨ζ0, hζ0⟩ := hne
+  -- the late components are unrestricted, so their coefficients vanish
+  have h4 : ∀ n < R.m, ∀ j, Pz.lp.nc ≤ j → j < R.nz → R.coef n j v = 0 := by
+    intro n hn j h1 h2
+    by_contra hc
+    set A := R.eval n v ζ0 with hA
+    have h := hsemi n hn ζ0 hζ0 (fun i => if i = j then ζ0 i + (1 - A) / R.coef n j v else ζ0 i)
+      (by intro i hi; rw [if_neg (by omega)])
+    rw [R.eval_bump n v ζ0 j h2, mul_div_cancel₀ _ hc] at h
+    linarith
+  apply rc_complete_of_dual_late Pz E hones R
+    (by intro q hq'; rw [hq] at hq'; simp at hq') v h4
+  intro n hn
+  set R₀ := R.trunc (min R.nz Pz.lp.nc) with hR₀
+  have hnz₀ : R₀.nz ≤ Pz.lp.nc := Nat.min_le_right _ _
+  set P' := Pz.withCost (R₀.rowCost n v) with hP'
+  have hS' : P'.coneDual
+      = { lp := P'.lp.dual, st := fun j i => P'.augSt i j, qmat := [], xmat := [] } :=
+    coneDual_nocone P' hq hx
+  have hfeas : ∃ x, P'.lp.Feas x := ⟨ζ0, ⟨hζ0.lin.rows, hζ0.lin.ubs, hζ0.lin.lbs⟩⟩
+  have hbd : ∀ x, P'.lp.Feas x → R.detPart n v ≤ P'.lp.obj x := by
+    intro x hx'
+    have hxz : Pz.Feas E x :=
+      ⟨⟨hx'.rows, hx'.ubs, hx'.lbs⟩, by intro q hq'; rw [hq] at hq'; simp at hq',
+        by intro e he'; rw [hx] at he'; simp at he'⟩
+    have h := hsemi n hn x hxz x (fun _ _ => rfl)
+    rw [R.eval_eq] at h
+    have hsum : ∑ j ∈ range R.nz, R.coef n j v * x j
+        = ∑ j ∈ range R₀.nz, R₀.coef n j v * x j := by
+      apply sum_range_tail_zero (min R.nz Pz.lp.nc) R.nz (Nat.min_le_left _ _)
+      · intro j _; rfl
+      · intro j h1 h2
+        show R.coef n j v * x j = 0
+        rw [h4 n hn j (by omega) h2, zero_mul]
+    rw [hP', R₀.obj_rowCost Pz hnz₀ n v x, ← hsum]
+    linarith
+  obtain ⟨y, hyf, hyv⟩ := LinProg.dual_strong P'.lp (R.detPart n v) hfeas hbd
+  refine ⟨y, ?_, ?_⟩
+  · rw [hS']
+    exact ⟨hyf, by intro q hq'; simp at hq', by intro e he'; simp at he'⟩
+  · rw [hS']
+    exact hyv
+
+/-- **Exactness for LP-class supports, late random variables allowed**: the projection of the
+counterpart's feasible set (block (4) included) on the decision columns is exactly the set of
+decisions that satisfy the uncertain rows for every point of the support and every value of the
+random components the support program does not know.
+`→` is `C01.rc_sound_late'`, `←` is `rc_complete_late_lp`. -/
+theorem rc_exact_late_lp (Pz : ConeProg K) (E : K → K → K → Prop) (hwf : Pz.WF)
+    (hq : Pz.qmat = []) (hx : Pz.xmat = [])
+    (hones : ∀ j, Pz.lp.c j = 1)
+    (R : RoRows K)
+    (hne : ∃ ζ, Pz.Feas E ζ)
+    (x : ℕ → K) :
+    (∃ v' : ℕ → K, (∀ d < R.nd, v' d = x d) ∧ (R.leToRc Pz.coneDual).prog.Feas E v') ↔
+      (∀ n < R.m, ∀ ζ₀, Pz.Feas E ζ₀ → ∀ ζ : ℕ → K, (∀ j < Pz.lp.nc, ζ j = ζ₀ j) →
+        R.eval n x ζ ≤ 0) := by
+  constructor
+  · rintro ⟨v', hd, hv⟩ n hn ζ₀ hζ₀ ζ hζ
+    have hS := coneDual_nocone Pz hq hx
+    have hxm : (R.leToRc Pz.coneDual).prog.xmat = [] := by
+      rw [hS]; simp [leToRc]
+    have hv0 : (R.leToRc Pz.coneDual).prog.Feas (fun _ _ _ => False) v' :=
+      ⟨hv.lin, hv.soc, by intro e he; rw [hxm] at he; simp at he⟩
+    have hζ0 : Pz.Feas (fun _ _ _ => False) ζ₀ :=
+      ⟨hζ₀.lin, hζ₀.soc, by intro e he; rw [hx] at he; simp at he⟩
+    have h := C01.rc_sound_late' Pz (fun _ _ _ => False) (fun _ _ _ _ _ _ h _ => h.elim) hwf hones R
+      (by intro q hq'; rw [hq] at hq'; simp at hq')
+      (by intro _ e he; rw [hx] at he; simp at he) v' hv0 n hn ζ₀ hζ0 ζ hζ
+    rw [R.eval_congr n x v' ζ (fun d hd' => (hd d hd').symm)]
+    exact h
+  · intro hsemi
+    exact rc_complete_late_lp Pz E hwf hq hx hones R hne x hsemi
 
 /-- **Exactness for conic supports, relative to the absence of a duality gap** (this makes precise
 what is *not* proved here: conic strong duality).  For a support with second-order and/or
